@@ -46,14 +46,20 @@ BASE_MIX = {
 }
 
 
-def gen_plan(profile, seed):
-    rng = random.Random("%s:%d" % (profile, seed))
-    n_clients = _wchoice(rng, [(1, 0.2), (2, 0.4), (3, 0.25), (4, 0.15)])
+def gen_plan(profile, seed, tier="quick"):
+    """tier 'thorough': every second seed is a *deep* run (more clients, longer
+    programs, larger sizes, deeper PCT); the others are generated exactly as in
+    the quick tier."""
+    deep = tier == "thorough" and seed % 2 == 1
+    rng = random.Random("%s:%d%s" % (profile, seed, ":deep" if deep else ""))
+    n_clients = _wchoice(rng, [(1, 0.2), (2, 0.4), (3, 0.25), (4, 0.15)]) if not deep else \
+        _wchoice(rng, [(2, 0.3), (3, 0.3), (4, 0.25), (5, 0.15)])
     pol = _wchoice(rng, [("random_walk", 0.5), ("pct", 0.3), ("boundary", 0.2)])
     knobs = {"n_clients": n_clients, "policy": pol,
              "switch_prob": _pick(rng, [0.02, 0.1, 0.5, 1.0]),
-             "pct_depth": rng.randrange(1, 4),
-             "small": rng.random() < 0.4,
+             "pct_depth": rng.randrange(1, 4) if not deep else rng.randrange(2, 6),
+             "deep": deep,
+             "small": rng.random() < (0.4 if not deep else 0.15),
              "simple_waves": rng.random() < 0.3}
     # module slots: groups of a forward family and (where one exists) its inverse
     fams = list(catalog.FWD_FAMILIES)
@@ -64,7 +70,7 @@ def gen_plan(profile, seed):
     else:
         fam_w = [("dwt1f", 2), ("dwt2f", 3), ("dtf", 3), ("scat", 1), ("scat2", 1), ("swt", 0.3)]
     slots = []
-    n_groups = rng.randrange(1, 4)
+    n_groups = rng.randrange(1, 4) if not deep else rng.randrange(2, 5)
     for _ in range(n_groups):
         f = _wchoice(rng, fam_w)
         slots.append(f)
@@ -112,6 +118,8 @@ def gen_plan(profile, seed):
         for c in range(1, n_clients):
             programs[c].append({"op": "wait", "id": new_id()})
     n_ops_total = rng.randrange(3, 9) * n_clients if profile != "C18" else rng.randrange(3, 11) * n_clients
+    if deep:
+        n_ops_total = rng.randrange(8, 18) * n_clients
     regs = [[] for _ in range(n_clients)]     # (reg, family, kind, requires_grad)
     nreg = [0]
     kinds = sorted(mix)
@@ -256,7 +264,7 @@ def gen_plan(profile, seed):
                 prog.append(gen_func(rng, new_id(), knobs))
     # faults (about half of all runs are fault-free)
     faults = []
-    budget = 0 if rng.random() < 0.5 else rng.randrange(1, 4)
+    budget = 0 if rng.random() < 0.5 else (rng.randrange(1, 4) if not deep else rng.randrange(1, 7))
     targets = [(c, o) for c in range(n_clients) for o in programs[c] if o["op"] in LMAX]
     for _ in range(budget):
         if not targets:
